@@ -111,4 +111,77 @@ def c17(ck, prop, tier, seed, keep, t0, bt):
     return rc
 
 
-SPECIAL = {"C08": c08, "C09": c09, "C17": c17}
+def c05(ck, prop, tier, seed, keep, t0, bt):
+    """Standard run; thorough additionally runs a coverage-guided libFuzzer target (walrus verdict vs reference
+    validator under both configurations) seeded with generated modules; every artifact is replayed through the
+    normal gate scenario and judged like any other case."""
+    merged, wd = ck.standard_run(prop, tier, seed, keep)
+    merged["counters"]["build_s"] = int(bt)
+    extra = {}
+    if tier == "thorough":
+        try:
+            extra = _fuzz_c05(ck, seed, wd, merged)
+        except Exception as e:  # noqa
+            extra = {"libfuzzer": "skipped: %r" % (e,)}
+    rc = ck.finish(prop, tier, seed, merged, t0, extra_cov=extra)
+    if not keep:
+        shutil.rmtree(wd, ignore_errors=True)
+    return rc
+
+
+def _fuzz_c05(ck, seed, wd, merged):
+    import glob
+    import time
+    fz = os.path.join(ck.HARNESS, "fuzzproj")
+    secs = int(os.environ.get("VERIF_FUZZ_SECONDS", "600"))
+    env = dict(ck.ENV)
+    t0 = time.time()
+    r = subprocess.run(["cargo", "+nightly", "fuzz", "build", "parse_gate"], cwd=fz, env=env, stdout=subprocess.PIPE, stderr=subprocess.STDOUT, text=True)
+    if r.returncode != 0:
+        return {"libfuzzer": "skipped: build failed: " + r.stdout[-300:]}
+    os.makedirs(wd, exist_ok=True)
+    corpus = os.path.join(wd, "fuzz-corpus")
+    arts = os.path.join(wd, "fuzz-artifacts") + "/"
+    os.makedirs(corpus, exist_ok=True)
+    os.makedirs(arts, exist_ok=True)
+    drive = ck.bin_path("wv-drive")
+    judge = ck.bin_path("wv-judge")
+    specs = ["gen:full:%d:%d" % (seed, i) for i in range(120)] + ["gen:mvp:%d:%d" % (seed, i) for i in range(40)] + ["gen:customs:%d:%d" % (seed, i) for i in range(40)]
+    for i, s in enumerate(specs):
+        subprocess.run([drive, "dump", "--spec", s, "--out", os.path.join(corpus, "seed%03d.wasm" % i)], env=env)
+    r = subprocess.run(["cargo", "+nightly", "fuzz", "run", "parse_gate", corpus, "--", "-fork=%d" % ck.NCPU, "-timeout=10", "-rss_limit_mb=4096",
+                        "-max_total_time=%d" % secs, "-seed=%d" % seed, "-artifact_prefix=" + arts, "-ignore_crashes=1", "-ignore_timeouts=1", "-ignore_ooms=1"],
+                       cwd=fz, env=env, stdout=subprocess.PIPE, stderr=subprocess.STDOUT, text=True, timeout=secs + 1800)
+    tail = r.stdout.strip().splitlines()[-3:]
+    execs = 0
+    for l in r.stdout.splitlines():
+        if l.startswith("#") and "cov:" in l:
+            try:
+                execs = max(execs, int(l[1:].split(":")[0]))
+            except ValueError:
+                pass
+    found = sorted(glob.glob(arts + "*"))
+    replayed = 0
+    for a in found[:200]:
+        lg = a + ".log"
+        subprocess.run([drive, "replay", "--spec", "file:" + a, "--scenario", "gate", "--out", lg], env=env)
+        open_idx, _ = ck.scan_log(lg)
+        if open_idx is not None:
+            with open(lg, "ab") as f:
+                f.write(ck.encode_rec("crash", [("idx", open_idx), ("how", "crash-in-replay-of-fuzz-artifact")]))
+        rp = a + ".json"
+        subprocess.run([judge, "--prop", "C05", "--log", lg, "--out", rp, "--replay-dir", ck.REPLAYS, "--single"], env=env)
+        try:
+            import json
+            d = json.load(open(rp))
+            merged["violations"] += d["violations"]
+            merged["cases"] += d["cases"]
+            merged["held"] += d["held"]
+            replayed += 1
+        except Exception:
+            pass
+    return {"libfuzzer": "ran %ds on %d forks: %d executions, %d artifacts (%d replayed through the gate scenario), exit %s; %.0fs incl. build" % (secs, ck.NCPU, execs, len(found), replayed, r.returncode, time.time() - t0),
+            "libfuzzer_tail": tail}
+
+
+SPECIAL = {"C05": c05, "C08": c08, "C09": c09, "C17": c17}
